@@ -58,6 +58,12 @@ def main(ids):
         return _run(seeded, ids, target, env, rows)
     finally:
         shutil.rmtree(scratch, ignore_errors=True)
+        # the runs above re-translated the tie sources from the PATCHED tree into lean/IblVerif/Generated: put back /repo's
+        if not inplace:
+            clean = {k: v for k, v in os.environ.items() if k != 'IBL_REPO'}
+            clean['PYTHONPATH'] = str(VERIF_RUN[0] / 'harness')
+            for p in sorted({r[1] for r in rows}):
+                sh(['/venv/bin/python', str(VERIF_RUN[0] / 'harness' / 'ties.py'), p], cwd=str(VERIF_RUN[0]), env=clean)
         if not inplace:
             sh(['git', '-C', str(REPO), 'worktree', 'remove', '--force', str(target)])
             shutil.rmtree(target.parent, ignore_errors=True)
